@@ -9,7 +9,7 @@ PROPS["C19"] = {
                    "hostile length and content (nil vs empty, boundary scalars, non-canonical/off-curve point strings, mutated valid inputs) "
                    "must produce no panic other than the documented ones, signal malformed input through error/bool exactly when the reference "
                    "predicate says the input is malformed, and leave the receiver in the documented state. All lengths 0..2n+2 are swept "
-                   "exhaustively per argument. Does not prove absence for contents."),
+                   "exhaustively per argument. Does not prove absence for contents. The expanded-key row also verifies through the zero value of ExpandedPublicKey under every option set."),
     "level_note": ("Trusted: verifref decoders (validated against RFC vectors), the expectation table in DESIGN.md appendix A (derived from doc "
                    "comments). Private-key/seed arguments and nil pointers are programming errors, not untrusted bytes, and are not in the table."),
     "rule": ("case = (table row, up to three byte arguments with length from {0,1,n-1,n,n+1,2n,uniform} and content from {hostile point strings, "
